@@ -345,3 +345,9 @@ def build_k1(out, variant='nothread', lib=None):
             f.write('  if (run_%s(argc, a)) return 1;\n' % m)
         f.write('  (void)argc; (void)a; return 0;\n}\n')
     return build_bin(out, variant, 'k1', ['k1.c'], lib, extra_cflags=['-I' + inc])
+
+# ---------------------------------------------------------------- K2 driver
+def build_k2(out, variant='nothread', lib=None):
+    if lib is None:
+        lib = build_lib(out, variant)
+    return build_bin(out, variant, 'k2', ['k2.c'], lib, extra_ld=['-Wl,--wrap=ldb_versions_apply'])
